@@ -108,6 +108,26 @@ def check_fixed(case, ctx):
 
     # 3. fit
     weights = case.get("weights")
+    loc_inside = loc in fixed and case["loc_frac"] >= 1 and data.min() > 0 and fixed[loc] >= data.min()
+    if loc_inside:
+        # data reaching below the fixed location have zero likelihood: nothing is claimed about the free parameters
+        # (the fit may return its start values or refuse), but a returned fit must still carry the fixed values
+        ctx.cls("fixed_location_inside_data")
+        try:
+            if method == "mle":
+                d.fit(data)
+            else:
+                d.fit(data, method=method, weights=weights)
+        except Exception as e:  # noqa: BLE001
+            ctx.cls(f"fixed_location_inside_data:raises:{type(e).__name__}")
+            ctx.rejected_by_contract()
+            return
+        for k, v in fixed.items():
+            is_loc = k in ("mu", "loc", "gamma")
+            if not abs(float(d.parameters[k]) - v) <= 1e-12 * (max(abs(v), 1.0) if is_loc else abs(v)):
+                ctx.violation(f"fixed_changed:{family}:{k}:{method}:location_inside_data", f"f_{k}={v!r} (smallest observation {data.min()!r}) but after fit {k}={d.parameters[k]!r}")
+                return
+        return
     try:
         if method == "mle":
             d.fit(data)
@@ -235,7 +255,8 @@ def strat_fixed(tier):
             values=values,
             start=start,
             with_start=draw(st.booleans()),
-            loc_frac=draw(st.floats(0.0, 0.9)),
+            # (>= 1: the fixed location lies at / above the smallest observation - calms below an assumed threshold)
+            loc_frac=draw(st.one_of(st.floats(0.0, 0.9), st.floats(0.0, 0.9), st.floats(0.0, 0.9), st.sampled_from([1.0, 1.3, 2.5]))),
             source=draw(_source(family)),
             n=draw(st.integers(200, 3000)),
             seed=draw(st.integers(0, 2**31 - 1)),
